@@ -73,6 +73,10 @@ struct Case {
     reqs: Vec<Req>,
     #[serde(default)]
     clock_steps_back: bool,
+    /// client driver only: some callers stop waiting for the order response before the exchange's latency
+    /// has elapsed (a request timeout, as `ExecutionManager` applies one) - the order still reached the venue
+    #[serde(default)]
+    impatient: bool,
 }
 
 fn d(s: &str) -> Decimal {
@@ -287,6 +291,26 @@ fn run_client(case: &Case) -> Result<Outcome, V> {
                 key: OrderKey { exchange: req.key.exchange, instrument: &req.key.instrument, strategy: req.key.strategy.clone(), cid: req.key.cid.clone() },
                 state: req.state.clone(),
             };
+            if case.impatient && case.latency_ms >= 2 && n % 3 == 1 {
+                // the caller gives up half-way through the exchange's latency and drops the response future
+                let gave_up = tokio::time::timeout(Duration::from_millis(case.latency_ms / 2), client.open_order(req_ref)).await.is_err();
+                out.steps += 1;
+                if gave_up {
+                    out.cells.push("caller_stopped_waiting_for_the_response".into());
+                    if let Decision::Accept { asset, amount, fee_quote } = led.decide(r) {
+                        out.accepted += 1;
+                        *led.bal.get_mut(&asset).unwrap() -= amount;
+                        led.accepted.push((n, fee_quote));
+                        expected_events.push(("balance".into(), format!("{asset}={}", led.bal[&asset])));
+                        expected_events.push(("trade".into(), format!("cid{n}:*:{}", fee_quote.normalize())));
+                        out.cells.push("accepted_order_whose_response_nobody_awaited".into());
+                    } else {
+                        out.rejected += 1;
+                    }
+                    continue;
+                }
+                return Err(("HARNESS_impatient_caller_got_a_response_before_the_latency", format!("request #{n}")));
+            }
             let resp = match tokio::time::timeout(wait, client.open_order(req_ref)).await {
                 Ok(r) => r,
                 Err(_) => return Err(("no_response_from_mock_exchange", format!("request #{n} {r:?}"))),
@@ -335,7 +359,8 @@ fn run_client(case: &Case) -> Result<Outcome, V> {
         let norm = |v: &[(String, String)]| -> Vec<String> {
             v.iter().map(|(k, s)| if k == "trade" { format!("trade:{}", s.splitn(2, ':').nth(1).unwrap_or("")) } else { format!("{k}:{s}") }).collect()
         };
-        if norm(&got) != norm(&expected_events) {
+        let same = |g: &[String], w: &[String]| g.len() == w.len() && g.iter().zip(w.iter()).all(|(a, b)| a == b || (b.starts_with("trade:*:") && a.starts_with("trade:") && a.rsplit(':').next() == b.rsplit(':').next()));
+        if !same(&norm(&got), &norm(&expected_events)) {
             return Err(("account_stream_notifications_differ_from_accepted_orders", format!("expected {:?} observed {:?}", norm(&expected_events), norm(&got))));
         }
         // queries reflect exactly the accepted orders
@@ -452,7 +477,7 @@ fn gen_case(rng: &mut Rng) -> Case {
             }
         }
     }
-    Case { balances, fee, latency_ms: *rng.pick(&[0u64, 1, 10, 250]), reqs, clock_steps_back: rng.bool() }
+    Case { balances, fee, latency_ms: *rng.pick(&[0u64, 1, 10, 250]), reqs, clock_steps_back: rng.bool(), impatient: rng.chance(1, 3) }
 }
 
 fn execute(case: &Case, client: bool, report: &mut Report) {
@@ -472,6 +497,7 @@ fn execute(case: &Case, client: bool, report: &mut Report) {
                 report.sample(|| json!({"client": client, "case": case}));
             }
         }
+        Err((sig, detail)) if sig.starts_with("HARNESS_") => report.harness_errors.push(format!("{sig}: {detail}")),
         Err((sig, detail)) => {
             report.case(h, true);
             let small_reqs = shrink(&case.reqs, |cand| {
@@ -522,6 +548,7 @@ fn main() {
             "driver:client",
             "driver:direct",
             "trade_query_with_non_monotone_request_times",
+            "accepted_order_whose_response_nobody_awaited",
         ] {
             report.require(c);
         }
